@@ -141,8 +141,10 @@ def attr_src(name, f, ind="    ") -> str:
 def class_src(name, f) -> str:
     if "@tpbound" in f:      # a generic class whose type parameter is bounded by a tuple / set type
         bound = "tuple[int, str]" if "tuple" in f else "set[int]"
-        return (f"TV_{name} = TypeVar(\"TV_{name}\", covariant=True, bound={bound})\n\n\nclass {name}(Generic[TV_{name}]):\n    ok: int\n\n"
-                f"    def __init__(self, a: int):\n        ...\n\n    def m(self, z: int) -> int:\n        ...\n")
+        var = "" if "@invariant" in f else "covariant=True, "
+        return (f"TV_{name} = TypeVar(\"TV_{name}\", {var}bound={bound})\n\n\nclass {name}(Generic[TV_{name}]):\n    ok: int\n\n"
+                f"    def __init__(self, a: int):\n        ...\n\n    def m(self, z: int) -> int:\n        ...\n\n"
+                f"    def uses_tv(self, other: TV_{name}) -> int:\n        ...\n")       # shows the type parameter, not its bound
     bases = "(BaseA, BaseB)" if "multi" in f else ""
     if "@privbase" in f:
         bases = "(BaseA, BaseB, _PrivBase)"
